@@ -349,14 +349,47 @@ def gen_c04(rng, tier):
 C04 = tree_spec('C04', ['src', 'm1', 'm0'], gen_c04, 'ChkProv.chk_C04',
     'independent provenance semantics Sem/Prov.v (no chunks, no tokens): chk_C04 checks every mapped segment of map(), every surviving original byte, raw bytes, statement starts, the sources/sourcesContent tables and the line attribution with columns=false against it')
 
+def same_location_pieces(rng, g):
+    """a warm CachedSource over a Concat of 3-5 pieces that all map to one original location whose
+    recorded content is the whole text: the cached map merges them, so the replayed chunk spans
+    several rope pieces and a cut inside it compares a multi-piece text with the recorded content"""
+    k = rng.randrange(3, 6)
+    pieces = [''.join(rng.choice('abcxyz;{} ') for _ in range(rng.randrange(1, 4))) for _ in range(k)]
+    if rng.random() < 0.6:
+        pieces[-1] += '\n'
+    whole = ''.join(pieces)
+    name = 's%d.js' % rng.randrange(0, 3)
+    content = whole if rng.random() < 0.8 else whole[:-1] + '#'
+    kids = []
+    for i, pc in enumerate(pieces):
+        if rng.random() < 0.85:
+            segs = [(1, 0, (0, 1, 0, None))]
+            m = {'mappings': gen_tree.encode_segments(segs, rng), 'sources': [name], 'contents': [content], 'names': [],
+                 'file': None, 'root': None, 'debug': None, 'segs': segs}
+            kids.append((False, ('sms', pc, 'gen%d.js' % i, m, None, None, False)))
+        else:
+            kids.append((False, ('raws', pc)))
+    cid = g.next_id
+    g.next_id += 1
+    g.warm.append((cid, rng.choice(['m1', 's10', 's10', 'm0', 's00'])))
+    if rng.random() < 0.5:
+        g.warm.append((cid, rng.choice(['m1', 's10', 's00'])))
+    return ('cached', cid, ('concat', 'new', kids))
+
 def gen_c06(rng, tier):
     n = 2500 if tier == 'quick' else 100000
     cfgs = [gen_tree.Cfg(ascii=True, sms=0.45, names=0.6), gen_tree.Cfg(ascii=True, sms=0.3, names=0.6, replace=0.3),
-            gen_tree.Cfg(ascii=True, sms=0.3, inner=0.3)]
+            gen_tree.Cfg(ascii=True, sms=0.3, inner=0.3),
+            gen_tree.Cfg(ascii=True, sms=0.4, names=0.5, cached=0.35, warm=0.8)]
     out = []
     for i in range(n):
         g = gen_tree.Gen(rng, cfgs[i % len(cfgs)])
-        if i % 2 == 0:
+        if i % 10 == 9:
+            inner = same_location_pieces(rng, g)
+            if rng.random() < 0.3:
+                inner = ('concat', 'new', [(False, g.leaf()), (False, inner)])
+            t = ('repl', inner, g.replacements(gen_tree.text_of(inner)))
+        elif i % 2 == 0:
             k = rng.randrange(1, 5)
             t = ('concat', rng.choice(['new', 'add']), [(False, g.node(rng.randrange(0, 3))) for _ in range(k)])
         else:
@@ -365,19 +398,28 @@ def gen_c06(rng, tier):
         feats = gen_tree.kinds_of(t, set())
         if len(gen_tree.text_of(t)) >= 2:
             feats.add('nontrivial')
-        out.append(Case('comp', {'t': t}, feats))
+        if g.warm:
+            feats.add('warm_cache')
+        out.append(Case('comp', {'t': t, 'warm': list(g.warm)}, feats))
     return out
 
 def shrink_comp(obj):
     t = obj['t']
+    w = obj.get('warm', [])
+    for i in range(len(w)):
+        yield {'t': t, 'warm': w[:i] + w[i + 1:]}
     for t2 in gen_tree.shrink_node(t):
         if t2[0] == t[0] and (t2[0] != 'concat' or all(not ty for ty, _ in t2[2])):
-            yield {'t': t2}
+            yield {'t': t2, 'warm': w}
+
+def ser_comp(obj):
+    w = obj.get('warm', [])
+    return 'comp %s %d %s' % (gen_tree.ser_node(obj['t']), len(w), ' '.join('%d %s' % x for x in w))
 
 C06 = Spec('C06',
-    kinds={'comp': {'ser': lambda obj: 'comp ' + gen_tree.ser_node(obj['t']), 'proj': None, 'shrink': shrink_comp}},
+    kinds={'comp': {'ser': ser_comp, 'proj': None, 'shrink': shrink_comp}},
     gen=gen_c06,
-    rule='a ConcatSource of 1-4 boxed children or a ReplaceSource (0-4 replacements, named or not) over random ASCII trees with SourceMapSource leaves (1-3 sources, shared and distinct file names, with/without sourcesContent, names); the composite and every child are streamed standalone with both column settings',
+    rule='a ConcatSource of 1-4 boxed children or a ReplaceSource (0-4 replacements, named or not) over random ASCII trees with SourceMapSource leaves (1-3 sources, shared and distinct file names, with/without sourcesContent, names), a quarter of them with CachedSource nodes warmed by earlier map()/stream calls, a tenth a ReplaceSource over a warm CachedSource over 3-5 pieces sharing one original location; the composite and every child are streamed standalone (each on a freshly built and equally warmed instance) with both column settings',
     explanation='chk_C06 compares the per-byte attribution of the composite stream with (Concat) the concatenation of the children\'s own attributions and contents, (Replace) a reference written over byte positions: cuts, pieces whose column advances only where the recorded original content matches, emission points of replacement content',
     checker_name='ChkComp.chk_C06', model_name='Stream/Concat.v, Stream/Replace.v')
 
